@@ -45,7 +45,7 @@ try:
         d = "%s/seeded/%s" % (V, i)
         meta = json.load(open(d + "/meta.json"))
         props = [meta["property"]] + list(meta.get("also", []))
-        conf = confirm(d) if CONFIRM else None
+        conf = confirm(d) if (CONFIRM and os.path.exists(d + '/demo.rs')) else None
         a = sh("git -C %s apply %s/patch.diff" % (WT, d))
         res = {"applied": a.returncode == 0, "runs": {}}
         if os.path.exists(d + "/result.json") and not CONFIRM:
@@ -53,6 +53,9 @@ try:
         res["confirmation"] = conf
         if a.returncode == 0:
             for p in props:
+                if not os.path.exists("%s/tools/props/%s.py" % (V, p.lower())) or not os.path.exists("%s/coq/theories/Properties/%s.v" % (V, p)):
+                    res["runs"][p] = {"exit": -1, "violation_lines": [], "summary": "check not built yet"}
+                    continue
                 env = dict(os.environ, VERIF_REPO=WT, VERIF_DEV=p)
                 c = sh("./check %s --tier quick" % p, cwd=V, env=env, timeout=3000)
                 lines = c.stdout.strip().split("\n")
